@@ -68,6 +68,39 @@ inline void c08_check(ExecCtx &c, bool differ, bool must_refuse,
   }
 }
 
+// C08 coverage matrix: entry point x way the two grids differ
+enum Entry {
+  E_ADD, E_SUB, E_MUL, E_IADD, E_ISUB, E_LINCOMB, E_BILIN, E_NUMINT, E_APPLY_FACTOR, E_LIN_FACTOR,
+  E_BILIN_FACTOR, E_HELD_APPLY, E_GENERATOR, E_N
+};
+enum DiffKind { D_EQUAL_DISTINCT, D_SAME_OBJECT, D_MOVED, D_EXTRA_FRONT, D_EXTRA_BACK, D_EXTRA_INSIDE, D_OTHER, D_N };
+constexpr int PR_MATRIX0 = 64;
+const char *entry_name(int e);
+const char *diff_name(int d);
+inline int grid_diff_kind(const Grid &a, const Grid &b) {
+  sim::Exempt e;
+  auto da = a.getData(), db = b.getData();
+  if (da == db) return D_SAME_OBJECT;
+  const std::vector<T> *x = da.get(), *y = db.get();
+  if (x->size() == y->size()) {
+    size_t nd = 0;
+    for (size_t i = 0; i < x->size(); i++)
+      if (!((*x)[i].raw() == (*y)[i].raw())) nd++;
+    return nd == 0 ? D_EQUAL_DISTINCT : nd == 1 ? D_MOVED : D_OTHER;
+  }
+  if (x->size() > y->size()) std::swap(x, y);  // x is the shorter one
+  if (y->size() != x->size() + 1) return D_OTHER;
+  size_t i = 0;
+  while (i < x->size() && (*x)[i].raw() == (*y)[i].raw()) i++;
+  // y[i] is the extra point; the rest has to match
+  for (size_t k = i; k < x->size(); k++)
+    if (!((*x)[k].raw() == (*y)[k + 1].raw())) return D_OTHER;
+  return i == 0 ? D_EXTRA_FRONT : i == x->size() ? D_EXTRA_BACK : D_EXTRA_INSIDE;
+}
+inline void c08_note(int entry, const Grid &a, const Grid &b) {
+  probe(PR_MATRIX0 + entry * D_N + grid_diff_kind(a, b));
+}
+
 template <class X, class Y>
 inline bool same_grid_object(const X &x, const Y &y) {
   sim::Exempt e;
